@@ -13,7 +13,6 @@ import (
 // answer is arbitrary within the descriptor: transport error, any status, non-JSON, JSON of the wrong
 // shape, an array of symbolic length, null elements, elements with errors.
 
-
 type vBody struct{ data []byte }
 
 func (b *vBody) Read(p []byte) (int, error) {
@@ -24,7 +23,7 @@ func (b *vBody) Read(p []byte) (int, error) {
 	b.data = b.data[n:]
 	return n, nil
 }
-func (b *vBody) Close() error               { return nil }
+func (b *vBody) Close() error { return nil }
 
 var v9N int
 var v9Signal bool // the transport produced a failure signal
